@@ -703,3 +703,73 @@ def alias(tier, seed, ci, nc, count=6000):
 
 
 STREAMS['alias'] = alias
+
+
+# ----------------------------------------------------------------------------- discovery
+def _corpus_prefork():
+    from . import corpus
+    corpus.callables()
+
+
+def visitor_corpus(tier, seed, ci, nc, star_only=False, limit=None):
+    """the real CallListerVisitor vs the Lean visitor on the AST of every corpus function whose source parses to a def"""
+    import ast as _ast
+    from . import corpus, real_disc
+    funcs = corpus.callables()[0]
+    idxs = range(len(funcs))
+    if star_only:
+        idxs = [i for i in idxs if funcs[i].__code__.co_flags & 0x0c]
+    if limit:
+        rng = _rng(seed, 'visitor_corpus', 0)
+        idxs = sorted(rng.sample(list(idxs), min(limit, len(idxs))))
+    for k, i in enumerate(idxs):
+        if k % nc != ci:
+            continue
+        t = real_disc.corpus_ast(i)
+        if isinstance(t, (_ast.FunctionDef, _ast.AsyncFunctionDef)):
+            yield ('visit', 'corpus', i)
+
+
+ADVERSARIAL_SOURCES = [
+    "def f(*args, **kwargs):\n    return g(*args, **kwargs)\n",
+    "def f(*args, **kwargs):\n    kwargs.pop('x')\n    return g(*args, **kwargs)\n",
+    "def f(*args, **kwargs):\n    kwargs = {}\n    return g(*args, **kwargs)\n",
+    "def f(*args, **kwargs):\n    del kwargs\n    return g(*args)\n",
+    "def f(*args, **kwargs):\n    print(kwargs)\n    return g(*args, **kwargs)\n",
+    "def f(*args, **kwargs):\n    def sub():\n        nonlocal kwargs\n        kwargs = 1\n    return g(*args, **kwargs)\n",
+    "def f(*args, **kwargs):\n    def sub():\n        return g(*args, **kwargs)\n    return sub()\n",
+    "def f(*args, **kwargs):\n    return (lambda: g(*args, **kwargs))()\n",
+    "def f(*args, **kwargs):\n    return g(*args, *args, **kwargs)\n",
+    "def f(*args, **kwargs):\n    return g(*args, **kwargs, **kwargs)\n",
+    "def f(*args, **kwargs):\n    return g(*args[1:], **dict(kwargs))\n",
+    "def f(self, *args, **kwargs):\n    return self.a.b.c(1, *args, k=2, **kwargs)\n",
+    "def f(self, *args, **kwargs):\n    self.x(3)\n    return self.m(*args, **kwargs)\n",
+    "def f(*args, **kwargs):\n    return g(h(*args), **kwargs)\n",
+    "def f(*args, **kwargs):\n    return g()(*args, **kwargs)\n",
+    "def f(*args, **kwargs):\n    for i in range(3):\n        g(*args, **kwargs)\n        kwargs = i\n",
+    "def f(*args, **kwargs):\n    with open(x) as kwargs:\n        pass\n    return g(*args, **kwargs)\n",
+    "def f(*args, **kwargs):\n    if (kwargs := 1):\n        pass\n    return g(*args, **kwargs)\n",
+    "def f(*args, **kwargs):\n    [g(*args, **kwargs) for kwargs in range(3)]\n",
+    "def f(*args, **kwargs):\n    match args:\n        case [kwargs]:\n            pass\n    return g(*args, **kwargs)\n",
+    "def f(*args, **kwargs):\n    global kwargs2\n    try:\n        return g(*args, **kwargs)\n    except E as kwargs:\n        pass\n",
+    "async def f(*args, **kwargs):\n    return await g(*args, **kwargs)\n",
+    "def f(*args, **kwargs):\n    async def sub(*args):\n        return g(*args, **kwargs)\n    yield from g(*args, **kwargs)\n",
+    "def f(*args, **kwargs):\n    class K:\n        x = g(*args, **kwargs)\n    return K\n",
+    "def f(a, /, b, *args, c, **kwargs):\n    return a(b, *args, c=c, **kwargs)\n",
+    "def f(*args, **kwargs):\n    def sub(*args, **kwargs):\n        return g(*args, **kwargs)\n    return sub(*args, **kwargs)\n",
+    "def f(*args, **kwargs):\n    args.count(1)\n    return g(*args, **kwargs)\n",
+    "def f(*args, **kwargs):\n    x = args\n    y = kwargs\n    return g(*args, **kwargs)\n",
+    "def f(*args, **kwargs):\n    return functools.partial(g, 1, *args, **kwargs)\n",
+    "def f(*args, **kwargs):\n    def sub():\n        nonlocal zz\n    def sub2():\n        def sub3():\n            nonlocal args\n            return g(*args)\n    return g(*args, **kwargs)\n",
+    "def f(*args, **kwargs):\n    return g(*args, **kwargs) if kwargs else g(*args)\n",
+    "def f(*args, **kwargs):\n    lambda kwargs: kwargs\n    return g(*args, **kwargs)\n",
+    "@deco(g(1))\ndef f(*args, x=g(2), **kwargs) -> g(3):\n    return g(*args, **kwargs)\n",
+]
+
+
+def visitor_adv(tier, seed, ci, nc):
+    return _slice((('visit', 'src', s) for s in ADVERSARIAL_SOURCES), ci, nc)
+
+
+PREFORK = {'visitor_corpus': _corpus_prefork}
+STREAMS.update({'visitor_corpus': visitor_corpus, 'visitor_adv': visitor_adv})
